@@ -101,3 +101,53 @@ func HarnessCertReuse() {
 		vAssert(err == nil && o != cur, "c11.cert-shared-between-hosts")
 	}
 }
+
+// HarnessCertConcurrent: "also when many tunnels to a new host open at once".  Two tunnels ask
+// for the certificate of one host (new to the cache, or cached but expired, or cached and valid);
+// the second tunnel's whole GetCertForHost is placed at every lock boundary of the first one's
+// (the certificate map's Get / Delete / Set).  Both get a certificate naming exactly the host and
+// inside its validity period, the map ends with one of them, and a later tunnel reuses that one.
+func HarnessCertConcurrent() {
+	ca := newTestCA()
+	host := "example.org:443"
+	vClockFreeze(true)
+	now := time.Now()
+	pre := symChoice(3)
+	var c0 *tls.Certificate
+	switch pre {
+	case 1: // cached and expired
+		c0 = &tls.Certificate{Leaf: &x509.Certificate{DNSNames: []string{"example.org"}, NotBefore: now.Add(-241 * time.Hour), NotAfter: now.Add(-time.Hour)}}
+		ca.certs.Set("example.org", c0)
+		vReach("pre-expired")
+	case 2: // cached and valid
+		c0 = &tls.Certificate{Leaf: &x509.Certificate{DNSNames: []string{"example.org"}, NotBefore: now.Add(-time.Hour), NotAfter: now.Add(239 * time.Hour)}}
+		ca.certs.Set("example.org", c0)
+		vReach("pre-valid")
+	default:
+		vReach("pre-new")
+	}
+	var c2 *tls.Certificate
+	var err2 error
+	vInterpose(func() { c2, err2 = ca.GetCertForHost(host) }, 1)
+	c1, err1 := ca.GetCertForHost(host)
+	vInterpose(nil, 0)
+	good := func(c *tls.Certificate, err error) bool {
+		return err == nil && c != nil && c.Leaf != nil && len(c.Leaf.DNSNames) == 1 && c.Leaf.DNSNames[0] == "example.org" &&
+			len(c.Leaf.IPAddresses) == 0 && !c.Leaf.NotBefore.After(now) && c.Leaf.NotAfter.After(now)
+	}
+	vAssert(good(c1, err1), "c11.concurrent.first-tunnel-without-valid-host-cert")
+	if vInterposed() == 0 {
+		return
+	}
+	vReach("second-tunnel-ran")
+	vAssert(good(c2, err2), "c11.concurrent.second-tunnel-without-valid-host-cert")
+	if pre == 2 {
+		vAssert(c1 == c0 && c2 == c0, "c11.valid-cert-not-reused")
+	}
+	held, ok := ca.certs.Get("example.org")
+	vAssert(ok && (held == c1 || held == c2), "c11.concurrent.cache-holds-neither-issued-cert")
+	c3, err3 := ca.GetCertForHost(host)
+	vAssert(err3 == nil && c3 == held, "c11.valid-cert-not-reused")
+	o, erro := ca.GetCertForHost("other.example:443")
+	vAssert(erro == nil && o != c1 && o != c2, "c11.cert-shared-between-hosts")
+}
